@@ -86,3 +86,112 @@ class HRG_rules:
         forall(lambda j: implies(0 <= j and j < len(result), result[j] in self._rule_seq and result[j].lhs == lhs), "int")
         and forall(lambda i: implies(0 <= i and i < len(self._rule_seq) and self._rule_seq[i].lhs == lhs,
                                      self._rule_seq[i] in result), "int"))}
+
+
+# ---- scc: Tarjan's algorithm (C19; C01 / C02 schedule the solvers by it) ---------------------------------------------
+# Proved: the result is a partition of the vertex set into non-empty, pairwise disjoint components (and no KeyError /
+# IndexError can occur on a closed adjacency mapping).  That the blocks are exactly the strongly connected components and
+# that they come in dependency order needs reachability reasoning: bounded stand-in (props/c19_bounded.py).
+def scc_closed(g):
+    return forall(lambda x, y: implies(x in g and y in g[x], y in g), "PyVal,PyVal")
+
+def tj_core(g, index, indexof, lowlink, stack, onstack):
+    return (index >= 0 and forall(lambda x: (x in indexof) == (x in lowlink), "PyVal")
+            and forall(lambda x: implies(x in indexof, x in g and 0 <= indexof[x] and indexof[x] < index
+                                         and lowlink[x] <= indexof[x]), "PyVal")
+            and forall(lambda i: implies(0 <= i and i < len(stack), stack[i] in onstack and stack[i] in indexof), "int")
+            # indices increase along the stack (so its elements are distinct)
+            and forall(lambda i, j: implies(0 <= i and i < j and j < len(stack), indexof[stack[i]] < indexof[stack[j]]), "int,int")
+            and forall(lambda x: implies(x in onstack, exists(lambda i: 0 <= i and i < len(stack) and stack[i] == x, "int")), "PyVal")
+            # no low-link of a stacked vertex, and no index of a stacked vertex, lies below the index of the bottom of the
+            # stack (so the bottom vertex is the root of its component: its low-link equals its index)
+            and forall(lambda i: implies(0 <= i and i < len(stack), lowlink[stack[i]] >= indexof[stack[0]]), "int")
+            and forall(lambda x: implies(x in onstack and len(stack) > 0, indexof[x] >= indexof[stack[0]]), "PyVal"))
+
+def tj_comps(indexof, onstack, comps):
+    return (forall(lambda c, x: implies(0 <= c and c < len(comps) and x in comps[c], x in indexof and x not in onstack), "int,PyVal")
+            and forall(lambda c, d, x: implies(0 <= c and c < d and d < len(comps), not (x in comps[c] and x in comps[d])), "int,int,PyVal")
+            and forall(lambda c: implies(0 <= c and c < len(comps), exists(lambda x: x in comps[c], "PyVal")), "int"))
+
+def tj_inv(g, index, indexof, lowlink, stack, onstack, comps):
+    return (tj_core(g, index, indexof, lowlink, stack, onstack) and tj_comps(indexof, onstack, comps)
+            # every numbered vertex is on the stack or in a finished component
+            and forall(lambda x: implies(x in indexof, x in onstack
+                                         or exists(lambda c: 0 <= c and c < len(comps) and x in comps[c], "int")), "PyVal"))
+
+def tj_frame(indexof, lowlink, stack, comps):
+    # what a call leaves alone: numbers and low-links of vertices numbered before, the stack below, the finished components
+    return (forall(lambda x: implies(x in old(indexof), x in indexof and indexof[x] == old(indexof)[x]
+                                     and lowlink[x] == old(lowlink)[x]), "PyVal")
+            and len(stack) >= len(old(stack))
+            and forall(lambda i: implies(0 <= i and i < len(old(stack)), stack[i] == old(stack)[i]), "int")
+            and len(comps) >= len(old(comps))
+            and forall(lambda c: implies(0 <= c and c < len(old(comps)), comps[c] == old(comps)[c]), "int"))
+
+
+@contract("fggs.utils.scc.visit")
+class scc_visit:
+    sig = {"v": "PyVal", "g": "dict[PyVal,set[PyVal]]", "index": "int", "indexof": "dict[PyVal,int]",
+           "lowlink": "dict[PyVal,int]", "stack": "list[PyVal]", "onstack": "set[PyVal]", "comps": "list[set[PyVal]]"}
+    properties = ["C19", "C01", "C02"]
+    captures = ["g", "index", "indexof", "lowlink", "stack", "onstack", "comps"]
+    nonlocals = ["index"]
+    modular = True
+    modifies = ["indexof", "lowlink", "stack", "onstack", "comps", "index"]
+    locals = {"comp": "set[PyVal]"}
+    shards = 8
+    requires = lambda v, g, index, indexof, lowlink, stack, onstack, comps: (
+        scc_closed(g) and tj_inv(g, index, indexof, lowlink, stack, onstack, comps) and v in g and v not in indexof)
+    loops = {
+        0: lambda v, g, index, indexof, lowlink, stack, onstack, comps: (
+            g == old(g) and tj_inv(g, index, indexof, lowlink, stack, onstack, comps)
+            and tj_frame(indexof, lowlink, stack, comps)
+            and v in indexof and v in onstack and indexof[v] == old(index) and index > old(index)
+            and len(stack) > len(old(stack)) and stack[len(old(stack))] == v
+            and forall(lambda x: implies(x in indexof and x not in old(indexof), indexof[x] >= old(index)), "PyVal")),
+        1: lambda v, g, index, indexof, lowlink, stack, onstack, comps, comp: (
+            g == old(g) and tj_core(g, index, indexof, lowlink, stack, onstack) and tj_comps(indexof, onstack, comps)
+            and tj_frame(indexof, lowlink, stack, comps)
+            and v in indexof and indexof[v] == old(index) and lowlink[v] == indexof[v] and index > old(index)
+            and forall(lambda x: implies(x in indexof and x not in old(indexof), indexof[x] >= old(index)), "PyVal")
+            and forall(lambda x: implies(x in indexof, x in onstack or x in comp
+                                         or exists(lambda c: 0 <= c and c < len(comps) and x in comps[c], "int")), "PyVal")
+            and forall(lambda x: implies(x in comp, x in indexof and x not in onstack and indexof[x] >= old(index)
+                                         and forall(lambda c: implies(0 <= c and c < len(comps), x not in comps[c]), "int")), "PyVal")
+            and implies(v not in comp, len(stack) > len(old(stack)) and stack[len(old(stack))] == v)
+            and implies(v in comp, len(stack) == len(old(stack)))),
+    }
+    # the component just closed contains its root (the witness for "components are non-empty")
+    checks = {"comps.append(comp)": lambda v, comps: v in comps[len(comps) - 1]}
+    ensures = {
+        "invariant": lambda v, g, index, indexof, lowlink, stack, onstack, comps: tj_inv(g, index, indexof, lowlink, stack, onstack, comps),
+        "frame": lambda g, indexof, lowlink, stack, comps: g == old(g) and tj_frame(indexof, lowlink, stack, comps),
+        "numbered": lambda v, index, indexof: (
+            v in indexof and indexof[v] == old(index) and index > old(index)
+            and forall(lambda x: implies(x in indexof and x not in old(indexof), indexof[x] >= old(index)), "PyVal")),
+        # either v is the root of a component, which has been popped down to where the stack was, or v stays on the stack
+        "root_or_stacked": lambda v, indexof, lowlink, stack, onstack: (
+            implies(v not in onstack, lowlink[v] == indexof[v] and len(stack) == len(old(stack)))
+            and implies(v in onstack, lowlink[v] != indexof[v] and len(stack) > len(old(stack)) and stack[len(old(stack))] == v)),
+    }
+
+
+@contract("fggs.utils.scc")
+class scc:
+    sig = {"g": "dict[PyVal,set[PyVal]]"}
+    properties = ["C19", "C01", "C02"]
+    locals = {"indexof": "dict[PyVal,int]", "lowlink": "dict[PyVal,int]", "stack": "list[PyVal]",
+              "onstack": "set[PyVal]", "comps": "list[set[PyVal]]"}
+    requires = lambda g: scc_closed(g)
+    loops = {2: lambda g, index, indexof, lowlink, stack, onstack, comps, _i2, _it2: (
+        g == old(g) and tj_inv(g, index, indexof, lowlink, stack, onstack, comps) and len(stack) == 0
+        and forall(lambda j: implies(0 <= j and j < _i2, _it2[j] in indexof), "int"))}
+    ensures = {
+        # a partition of the vertex set: every vertex in some component, components non-empty, pairwise disjoint, made of vertices
+        "covers": lambda g, result: forall(lambda x: implies(x in g, exists(lambda c: 0 <= c and c < len(result) and x in result[c], "int")), "PyVal"),
+        "disjoint": lambda g, result: forall(lambda c, d, x: implies(0 <= c and c < d and d < len(result),
+                                                                     not (x in result[c] and x in result[d])), "int,int,PyVal"),
+        "nonempty": lambda g, result: forall(lambda c: implies(0 <= c and c < len(result), exists(lambda x: x in result[c], "PyVal")), "int"),
+        "vertices_only": lambda g, result: forall(lambda c, x: implies(0 <= c and c < len(result) and x in result[c], x in g), "int,PyVal"),
+        "pure": lambda g: g == old(g),
+    }
